@@ -75,8 +75,191 @@ def local_defs(sc, name):
     return out
 
 
+def check_intermediate_rounding(ctx, prog, rule="c06.rounding"):
+    """"equals to two decimals the value the standards define": rounding belongs at the end.  A value that was rounded to two decimals and then enters further
+    arithmetic (U_w rounded before d_w = lambda/U_w, U_bw rounded before the height-weighted mean) carries an error of up to 0.005 into a formula that can amplify it
+    past 0.01.  Every fround2/fround3 result - also the result of a function of this module that returns a rounded value - that is an operand of arithmetic in the
+    U-value functions is a site."""
+    from ..mir import callee_name
+    mod_fns = [f for f in prog.fns.values() if f.path.startswith("bemodel::energy::transmittance::") and f.root == f.id and not f.raw.get("impl_derived")]
+    # functions whose returned values are all rounded (Some(fround2(..)) / fround2(..))
+    def rounded_fn(f):
+        rns = returned_nodes(f.body)
+        sc = Scope(prog, f)
+        vals = []
+        for _, rn in rns:
+            n = strip(sc._rw(rn))
+            if n[0] == "agg" and n[1].split("::")[-1] in ("Some", "Ok") and n[3]:
+                n = strip(n[3][0])
+            if n[0] == "agg" and n[1].split("::")[-1] == "None":
+                continue
+            if n[0] == "call" and short_callee(n[1]) == "from_residual":
+                continue
+            vals.append(n)
+        return bool(vals) and all(v[0] == "call" and short_callee(v[1]) in ("fround2", "fround3") for v in vals)
+    rounded = {f.path for f in mod_fns if rounded_fn(f)}
+    ARITH = ("Add", "Sub", "Mul", "Div")
+    sites = {}
+
+    def is_rounded(n):
+        # `x?` / `.unwrap()` of a rounded Option is the rounded value
+        while (n[0] == "proj" and strip(n[1])[0] == "call" and short_callee(strip(n[1])[1]) == "branch" and strip(n[1])[2]) or \
+                (n[0] == "call" and short_callee(n[1]) in ("unwrap", "expect", "unwrap_or_default") and n[2]):
+            n = strip(strip(n[1])[2][0]) if n[0] == "proj" else strip(n[2][0])
+        if n[0] != "call":
+            return None
+        if short_callee(n[1]) in ("fround2", "fround3"):
+            return "fround"
+        ids = prog.callee_index().get(n[1], ())
+        if len(ids) == 1 and prog.fns[next(iter(ids))].path in rounded:
+            return "call"
+        return None
+
+    # named locals that hold a rounded value, and parameters that receive one at some call site
+    rlocals, rparams = {}, {}
+    for f in mod_fns:
+        sc_ = Scope(prog, f)
+        rl = set()
+        for l_, ds in f.body.defs().items():
+            if l_ not in f.body.names:
+                continue
+            for d in ds:
+                try:
+                    v_ = strip(sc_.rvalue(d[3]["rv"])) if d[0] == "st" else strip(sc_._rw(sc_.eb.call_node(d[2], d[1])))
+                except Exception:
+                    continue
+                if v_[0] == "proj" and strip(v_[1])[0] == "call" and short_callee(strip(v_[1])[1]) == "branch" and strip(v_[1])[2]:
+                    v_ = strip(strip(v_[1])[2][0])          # `x?` of a rounded Option
+                if is_rounded(v_):
+                    rl.add(l_)
+        rlocals[f.id] = rl
+    from ..mir import callee_id
+    for f in mod_fns:
+        sc_ = Scope(prog, f)
+        for b_, t_ in f.body.calls():
+            cid = callee_id(t_)
+            if cid in {g.id for g in mod_fns}:
+                for i_, a_ in enumerate(t_["args"]):
+                    raw = strip(sc_.eb.operand(a_))
+                    v_ = strip(sc_.operand(a_))
+                    if is_rounded(v_) or (raw[0] == "var" and raw[1] in rlocals[f.id]):
+                        rparams.setdefault(cid, set()).add(i_ + 1)
+
+    def visit(f, n, under_arith, depth=0):
+        n = strip(n)
+        if depth > 40:
+            return
+        k = n[0]
+        if under_arith and ((k == "var" and n[1] in rlocals.get(f.id, ())) or (k == "arg" and n[1] in rparams.get(f.id, ()))):
+            sites.setdefault((f.path.split("::")[-1], "%s (rounded %s)" % (n[2], "local" if k == "var" else "argument")), f.loc())
+        r = is_rounded(n)
+        if r and under_arith:
+            desc = (short_callee(n[1]) + "(" + origin_desc(strip(n[2][0]))[:50] + ")") if n[2] else short_callee(n[1])
+            sites.setdefault((f.path.split("::")[-1], desc), f.loc())
+        if k == "bin":
+            ua = under_arith or any(n[1].startswith(a) for a in ARITH)
+            visit(f, n[2], ua, depth + 1)
+            visit(f, n[3], ua, depth + 1)
+        elif k == "un":
+            visit(f, n[2], under_arith, depth + 1)
+        elif k == "cast":
+            visit(f, n[1], under_arith, depth + 1)
+        elif k == "proj":
+            visit(f, n[1], under_arith, depth + 1)
+        elif k == "call":
+            nm = short_callee(n[1])
+            # the argument of the outermost rounding is not "under arithmetic" because of the rounding itself; arguments of numeric functions are
+            ua = under_arith or nm in ("min", "max", "ln", "powf", "sqrt", "exp", "mul_add")
+            for a in n[2]:
+                visit(f, a, False if r == "fround" and not under_arith else ua, depth + 1)
+        elif k == "agg":
+            for a in n[3]:
+                visit(f, a, under_arith, depth + 1)
+    for f in sorted(mod_fns, key=lambda f: f.id):
+        if not any(x in f.path for x in ("u_value", "slab_", "resistance", "ua_of")):
+            continue
+        sc = Scope(prog, f)
+        for _, rn in returned_nodes(f.body):
+            visit(f, sc._rw(rn), False)
+        for b, i, st in f.body.statements():
+            if st["s"] == "assign" and st["rv"]["r"] == "bin" and any(st["rv"]["op"].startswith(a) for a in ARITH):
+                try:
+                    visit(f, sc.rvalue(st["rv"]), False)
+                except Exception:
+                    pass
+    ctx.floor(rule, "U-value functions that return rounded values", len(rounded), 4)
+    from ..spec.triage import C06_ROUNDING_EXCEPTIONS
+    for (fname, desc), loc in sorted(sites.items()):
+        if "%s|%s|%s" % (rule, fname, desc) in C06_ROUNDING_EXCEPTIONS:
+            ctx.exception(rule, "%s|%s|%s" % (rule, fname, desc), C06_ROUNDING_EXCEPTIONS["%s|%s|%s" % (rule, fname, desc)], loc)
+            continue
+        ctx.violation(rule, "%s|%s|%s" % (rule, fname, desc), "in %s the value %s has already been rounded to two decimals when it enters further arithmetic: the rounding error (up to "
+                      "0.005) is carried through the rest of the formula, and the final two-decimal value can differ from the standard's by more than 0.01" % (fname, desc), loc)
+    if not sites:
+        ctx.ok(rule, rule + "|none", "no rounded value enters further arithmetic in the U-value functions (rounding happens once, at the end)", None)
+
+
+def check_neighbour_of_own_walls(ctx, prog, rule="c06.dispatch"):
+    """`Space::walls` yields the elements a space is bounded by, whether they are declared from this space (`w.space == self.id`, the other space is
+    `w.next_to`) or from the other one (`w.next_to == self.id`, the other space is `w.space`).  Code that walks over them and asks what lies on the other
+    side must look at `w.space` too: taking `w.next_to` for every element looks the space itself up for the elements declared from the other side."""
+    n = 0
+    for f in sorted(prog.fns.values(), key=lambda f: f.id):
+        if f.crate != "bemodel" or f.root != f.id or f.raw.get("impl_derived") or "Space" not in f.path:
+            continue
+        if not any((callee_name(t) or "").endswith("Space::walls") for _, t in f.body.calls()):
+            continue
+        root = Scope(prog, f)
+        for sc in root.all_scopes():
+            if sc.fn.id == f.id:
+                continue
+            elem = getattr(sc, "elem", None)
+            txt_elem = show(elem) if elem is not None else ""
+            if "walls(" not in txt_elem and "Space::walls" not in txt_elem:
+                continue
+            reads_next = reads_space = False
+            for bb in range(sc.body.n):
+                for st in sc.body.blocks[bb]["st"]:
+                    if st["s"] != "assign":
+                        continue
+                    try:
+                        v = sc.rvalue(st["rv"])
+                    except Exception:
+                        continue
+                    for x in walk(v):
+                        ln_ = leaf_name(x) if x[0] in ("proj",) else None
+                        if ln_ and ln_.endswith(".next_to") and "walls" in ln_:
+                            reads_next = True
+                        if ln_ and ln_.endswith(".space") and "walls" in ln_:
+                            reads_space = True
+                t = sc.body.blocks[bb]["term"]
+                if t["t"] == "call":
+                    for a in t["args"]:
+                        for x in walk(sc.operand(a)):
+                            ln_ = leaf_name(x) if x[0] in ("proj",) else None
+                            if ln_ and ln_.endswith(".next_to") and "walls" in ln_:
+                                reads_next = True
+                            if ln_ and ln_.endswith(".space") and "walls" in ln_:
+                                reads_space = True
+            if not reads_next:
+                continue
+            n += 1
+            key = "%s|other-side|%s" % (rule, f.path.split("::")[-1])
+            if any(i.key == key for i in ctx.instances):
+                continue
+            if reads_space:
+                ctx.ok(rule, key, "the other side of an element of Space::walls is chosen by looking at which space declares it", sc.fn.loc())
+            else:
+                ctx.violation(rule, key, "%s takes `next_to` as the other side of every element Space::walls yields, without looking at which space declares the element: for a "
+                              "partition declared from the neighbouring space (`next_to` = this space) the space looked up is the space itself, so a contact with an "
+                              "unconditioned space is not seen (exposed perimeter of the slab too short)" % f.path.split("::")[-1], sc.fn.loc())
+    ctx.floor(rule, "walks over Space::walls that ask for the other side", n, 1)
+
+
 def run(ctx):
     prog = ctx.prog
+    check_intermediate_rounding(ctx, prog)
+    check_neighbour_of_own_walls(ctx, prog)
     tilt_variants = [v["name"] for v in prog.adt("bemodel::types::common::Tilt")["variants"]]
     ctx.require(tilt_variants == TILTS, "Tilt variants changed: %s" % tilt_variants)
     nrows = 0
